@@ -142,6 +142,17 @@ def constructor_cases(A, MESSAGE, record=True):
                         st[a] = ev.eval(v)
                     init_state[k] = st
     A.sample({'case': 'Packet(type=4, data:bytes)', 'expect': 'binary=True, accepted'})
+    # a packet constructed from its wire form is decoded from it
+    for k, val in (('text', Kind('str', truthy=True, empty=False)), ('bytes', Kind('bytes'))):
+        asm = {'encoded_packet': val, 'data': Const(None)}
+        ps = A.paths(A.enum(assume=assume_from(asm), refine_raises=False), init)
+        live = [p for p in ps if p.outcome == 'return']
+        A.check(bool(live) and all(any(e.kind == 'call' and txt(e.expr) ==
+                                       'self.decode(encoded_packet)' for e in p.events)
+                                   for p in live), 'C01.init',
+                'Packet(encoded_packet=<%s>) decodes the wire form' % k, A.site(init),
+                key='init-decodes', detail=[describe(p) for p in live][:2],
+                behaviour='received packets all look like empty MESSAGE packets')
 
     return init_state
 
